@@ -37,6 +37,8 @@ Line-protocol driver for C07. Ops:
   `adv dt`                        time advances, every timer fires in order (prompt polls)
   `jump dt`                       the clock jumps, then everything ready is polled once (late poll)
   `shutdown`
+  `close`                         the request channel is closed (every sender dropped) = `shutdown` for model and spec
+  `init T n m x new|ip|il|ie`     configuration shape of the real manager (see harness/src/bin/c07.rs); ignored here
 Observations per op:
   `fwd <kind> x<exchange id> ins<name> <strat> <cid> <state>`   one per request the manager handed to the client
         during the op, in intake order (`<state>` = `B|S:price:qty:L|M:tif` / `id:-` / `id:o<k>`),
@@ -221,6 +223,10 @@ def parseReq (kind : Kind) (toks : List String) : Option PReq :=
     go ex ins strat cid body delay reply fills eex eins estrat ecid ebody oid tex
   | _ => none
 
+/-- tokio's timers reach 2^36 ms (the documented maximum of `tokio::time::sleep`, about 2.2 years): a request
+timeout or a time step of this many ticks (10 ms) or more is rejected (`MAX_TICKS` in harness/src/bin/c07.rs) -/
+def maxTicks : Nat := 6800000000
+
 inductive Op
   | init (t n m x : Nat)
   | req (q : PReq)
@@ -234,23 +240,32 @@ inductive Op
 def parseOp : List String → Option Op
   | ["init", t, n] =>
     match t.toNat?, n.toNat? with
-    | some t, some n => some (.init t n 0 0)
+    | some t, some n => if t < maxTicks then some (.init t n 0 0) else none
     | _, _ => none
   | ["init", t, n, m] =>
     match t.toNat?, n.toNat?, m.toNat? with
-    | some t, some n, some m => some (.init t n m 0)
+    | some t, some n, some m => if t < maxTicks then some (.init t n m 0) else none
     | _, _, _ => none
   | ["init", t, n, m, x] =>
     match t.toNat?, n.toNat?, m.toNat?, x.toNat? with
-    | some t, some n, some m, some x => if x < 4 then some (.init t n m x) else none
+    | some t, some n, some m, some x => if x < 4 && t < maxTicks then some (.init t n m x) else none
+    | _, _, _, _ => none
+  -- CONFIGURATION shape (how the manager is assembled: `ExecutionManager::new`, or `ExecutionManager::init` with a
+  -- pending / live / ending account stream): nothing the property - hence model and spec - depends on
+  | ["init", t, n, m, x, mode] =>
+    if !["new", "ip", "il", "ie"].contains mode then none else
+    match t.toNat?, n.toNat?, m.toNat?, x.toNat? with
+    | some t, some n, some m, some x => if x < 4 && t < maxTicks then some (.init t n m x) else none
     | _, _, _, _ => none
   | "open" :: rest => (parseReq .open rest).map .req
   | "cancel" :: rest => (parseReq .cancel rest).map .req
   | "open+" :: rest => (parseReq .open rest).map .reqBurst
   | "cancel+" :: rest => (parseReq .cancel rest).map .reqBurst
-  | ["adv", dt] => dt.toNat?.map .adv
-  | ["jump", dt] => dt.toNat?.map .jump
+  | ["adv", dt] => (dt.toNat?.filter (· < maxTicks)).map .adv
+  | ["jump", dt] => (dt.toNat?.filter (· < maxTicks)).map .jump
   | ["shutdown"] => some .shutdown
+  -- the request channel is closed (the request stream ends): the manager stops as it does on `Shutdown`
+  | ["close"] => some .shutdown
   | _ => none
 
 /-! ### concrete model -/
